@@ -149,3 +149,11 @@ Example C05_example :
     (parse_entry (render_entry (bs "http://a.test/x#0") (bs "2000-01-01T00:00:00Z") (bs "2000-01-01T00:00:01Z")
                     (render_msg sl before after FrLength body))) = Some (bs "http://a.test/x#0", body).
 Proof. vm_compute. repeat split; reflexivity. Qed.
+
+(* ---------- tie to the source: the part of the model this property rests on is what /verif/translate derives from
+   /repo's Go source on this run (Generated/*.v are rewritten before every build; see DESIGN.md section 9) ---------- *)
+From HC.Generated Require Import SrcTables.
+From HC.Proofs Require Import TieTables.
+Theorem C05_source_hop_by_hop : src_hop_by_hop_fixed = hop_by_hop_fixed.
+Proof. exact tie_hop_by_hop_fixed. Qed.
+Print Assumptions C05_source_hop_by_hop.
